@@ -232,6 +232,91 @@ def run(tier='quick', seed=0):
                                    'pattern': repr(pat), 'target': repr(target), 'seed': repr(before[0])})
         if len(samples) < 5 and ok:
             samples.append({'pattern': repr(pat), 'target': repr(target), 'result': repr(dict(res))})
+    # ---- heads applied to several non-pattern arguments (heuristic branch), and lists of pattern / target pairs with
+    # a pre-seeded instantiation (first_order_match_list postpones non-pattern applications)
+    sH = SVar('H', TFun(N, N, N))
+    sK = SVar('K', TFun(N, N, N, N))
+    g3 = Const('g3', TFun(N, N, N, N))
+    sc = SVar('c', N)
+    for it in range(300 if tier == 'quick' else 5000):
+        k = rng.random()
+        if k < 0.5:
+            # ?H s t against g s' t' with ground arguments
+            args_p = [rng.choice([gen_ground(1), f(sa), sa]) for _ in range(2)]
+            pat = sH(*args_p) if rng.random() < 0.7 else sK(*(args_p + [gen_ground(1)]))
+            target = g(gen_ground(1), gen_ground(1)) if pat.head == sH else g3(gen_ground(1), gen_ground(1), gen_ground(1))
+            if rng.random() < 0.5:
+                # make the target an instance of the pattern where the head is instantiated by the constant
+                sig_ = Inst()
+                sig_['a'] = gen_ground(1)
+                sig_['H'] = g
+                sig_['K'] = g3
+                try:
+                    target = pat.subst_norm(sig_)
+                except Exception:
+                    continue
+            if rng.random() < 0.3:
+                pat, target = Lambda(x, pat), Lambda(x, target)
+            pats, ts = [pat], [target]
+        else:
+            # a list whose first pattern is a non-pattern application ?F (?a + c0-like) fixed by later pairs
+            inner = g(sa, c0) if rng.random() < 0.5 else f(sa)
+            ga = gen_ground(1)
+            pats = [sF(inner), sa]
+            img = rng.choice([f, Lambda(x, g(x, c1))])
+            ts = [img(inner.subst_norm(Inst(a=ga))).beta_norm() if img is not f else f(inner.subst_norm(Inst(a=ga))), ga]
+            if rng.random() < 0.3:
+                pats.append(sb)
+                ts.append(gen_ground(1))
+        pre = Inst()
+        r_ = rng.random()
+        if r_ < 0.35:
+            pre['c'] = gen_ground(1)             # an unrelated entry that must survive
+        elif r_ < 0.5:
+            pre['a'] = gen_ground(1)             # possibly conflicting
+        elif r_ < 0.6:
+            pre.tyinst['zz'] = N
+        before = snapshot(pre)
+        evals += 1
+        distinct.add(('list', repr(pats), repr(ts), repr(before[0])))
+        try:
+            res = matcher.first_order_match_list(pats, ts, pre) if len(pats) > 1 or rng.random() < 0.5 else \
+                matcher.first_order_match(pats[0], ts[0], pre)
+            ok = True
+        except matcher.MatchException:
+            ok = False
+        except Exception:
+            continue
+        if snapshot(pre) != before:
+            violations.append({'function': 'logic.matcher.first_order_match_list', 'clause': 'input-inst-untouched',
+                               'what': 'the caller\'s instantiation changed from %s to %s' % (before, snapshot(pre)),
+                               'pattern': repr(pats), 'target': repr(ts)})
+        if not ok:
+            stats['failed'] += 1
+            continue
+        stats['matched'] += 1
+        for k2, v in before[0].items():
+            if k2 not in res or res[k2] != v:
+                violations.append({'function': 'logic.matcher.first_order_match_list', 'clause': 'extends',
+                                   'what': 'binding %s := %r of the given instantiation was lost or altered (result %r)' % (
+                                       k2, v, dict(res)), 'pattern': repr(pats), 'target': repr(ts)})
+        for k2, v in before[1].items():
+            if k2 not in res.tyinst or res.tyinst[k2] != v:
+                violations.append({'function': 'logic.matcher.first_order_match_list', 'clause': 'extends',
+                                   'what': 'type binding %s of the given instantiation was lost' % k2,
+                                   'pattern': repr(pats), 'target': repr(ts)})
+        for p_, t_ in zip(pats, ts):
+            try:
+                got = eta_norm(p_.subst_norm(res).beta_norm())
+                want = eta_norm(t_.beta_norm())
+                if got != want:
+                    violations.append({'function': 'logic.matcher.first_order_match_list', 'clause': 'instantiates',
+                                       'what': 'pattern instantiated with the result gives %r, target is %r' % (got, want),
+                                       'pattern': repr(pats), 'target': repr(ts), 'result': repr(dict(res))})
+            except Exception as e:
+                violations.append({'function': 'logic.matcher.first_order_match_list', 'clause': 'instantiates',
+                                   'what': 'applying the result raised %s: %s' % (type(e).__name__, e),
+                                   'pattern': repr(pats), 'target': repr(ts), 'result': repr(dict(res))})
     seen = set()
     uniq = []
     for v in violations:
